@@ -47,6 +47,9 @@ func instrIndex(in ssa.Instruction) int {
 	return -1
 }
 
+// nilGuardEdge is set by loadWorld to World.nilGuardInfeasible.
+var nilGuardEdge func(b *ssa.BasicBlock, succ int) bool
+
 func (q PathQuery) Find() PathResult {
 	type node struct {
 		b    *ssa.BasicBlock
@@ -96,6 +99,10 @@ func (q PathQuery) Find() PathResult {
 		}
 		for si, s := range n.b.Succs {
 			if q.BlockEdge != nil && q.BlockEdge(n.b, si) {
+				continue
+			}
+			// an edge that is taken only if a job pointer known to be non-nil were nil (nonnil.go)
+			if nilGuardEdge != nil && nilGuardEdge(n.b, si) {
 				continue
 			}
 			if visitedEntry[s.Index] {
@@ -628,6 +635,11 @@ func (w *World) enumPaths(fn *ssa.Function, o EnumOpts) EnumResult {
 					g := nf
 					if lit != nil {
 						lit.Inl = depth > 0
+						if !o.NoPrune && lit.Val && lit.Atom.Op == "==" && lit.Atom.R == "nil" && strings.Contains(lit.Atom.L, ".jobsByID[") && lookupKnownPresent(g.lits, lit.Atom.L) && w.nonNilInvariant() {
+							// the looked-up job was found on this path: it is not nil
+							res.Pruned++
+							return
+						}
 						if !o.NoPrune {
 							for _, l := range g.lits {
 								if l.Atom == lit.Atom && l.Val != lit.Val && lit.Pure && !storedBetween(g.effects, l, lit.Atom) {
@@ -841,7 +853,9 @@ func storedBetween(effects []Effect, l Lit, a Atom) bool {
 // feasible successor with the literal that holds on it (nil when the condition is constant).
 func (w *World) branch(x *ssa.If, phi map[*ssa.Phi]ssa.Value, mem map[*ssa.Alloc]ssa.Value, param map[*ssa.Parameter]ssa.Value, calls map[*ssa.Call][]ssa.Value, take func(succ int, lit *Lit)) {
 	w.phiEnv, w.memEnv, w.paramEnv, w.callEnv = phi, mem, param, calls
+	w.condAt = x
 	op, l, r, neg, konst := w.condAtom(x.Cond, 0)
+	w.condAt = nil
 	w.phiEnv, w.memEnv, w.paramEnv, w.callEnv = nil, nil, nil, nil
 	if konst != nil {
 		v := *konst
@@ -890,6 +904,11 @@ func (w *World) condAtom(v ssa.Value, depth int) (op, l, r string, neg bool, kon
 					a, bb = bb, a
 				}
 				if isNilConst(bb) && (w.sentinelError(a) || freshError(a)) {
+					b := x.Op.String() == "!="
+					return "", "", "", false, &b
+				}
+				// a job pointer that is known non-nil here (a defensive guard)
+				if isNilConst(bb) && w.isJobPtr(a.Type()) && w.knownNonNil(a, w.condAt, 0) {
 					b := x.Op.String() == "!="
 					return "", "", "", false, &b
 				}
